@@ -14,7 +14,7 @@ def is_version(value):
     try:
         value = str(value)
         version = AwesomeVersion(value)
-        if AwesomeVersion("1.4") > version:
+        if version < AwesomeVersion("1.4"):
             raise ValueError()
         # Make sure every section can be compared as an integer later on.
         for idx in range(version.sections):
